@@ -831,6 +831,53 @@ def symbols2(t, outer, inner):
             symbols2(x, outer, inner)
 
 
+NEST2_SRC = """
+#![allow(unused)]
+#[inline(never)] pub fn sink(x: &u8) { loop {} }
+#[inline(never)] pub fn sub(x: &u8) -> &[u8; 2] { loop {} }
+pub fn n_flatten_flatten_for_each(s: &[[[u8; 2]; 2]; 2]) { konst::iter::for_each!{x in s, flatten(), flatten() => { sink(x); }} }
+pub fn n_flatten_flatten_count(s: &[[[u8; 2]; 2]; 2]) -> usize { konst::iter::eval!(s, flatten(), flatten(), count()) }
+pub fn n_flatten_flat_map_fold(s: &[[u8; 2]; 2]) -> u8 { konst::iter::eval!(s, flatten(), flat_map(|x| sub(x)), fold(0u8, |a, x| a ^ *x)) }
+pub fn n_flat_map_flat_map_for_each(s: &[u8; 2]) { konst::iter::for_each!{x in s, flat_map(|x| sub(x)), flat_map(|x| sub(x)) => { sink(x); }} }
+pub fn n_flat_map_flatten_count(s: &[[[u8; 2]; 2]; 2]) -> usize { konst::iter::eval!(s, flat_map(|x| x), flatten(), count()) }
+"""
+
+
+def nest2(ctx):
+    """NEST2: chains with two flattening steps are three nested loops.  The translation validation composes one flattening level;
+    for the second one this structural rule holds the generated control flow to the nesting: with no short-circuiting method in the
+    chain, every way out of the innermost loop continues inside the middle loop (its sub-iterator is exhausted: fetch the next one), and
+    every way out of the middle loop continues inside the outer one.  A `break`/`continue` wired to the wrong level skips elements."""
+    prog, diag = witness_program(ctx, "w10n", NEST2_SRC)
+    if prog is None:
+        ctx.violation("NEST2", "witness", "the nested-flatten witness crate does not compile:\n%s" % diag[-2000:])
+        return
+    for b in prog.bodies:
+        if b.crate != "w10n" or b.promoted is not None or not b.key.split("::")[-1].startswith("n_"):
+            continue
+        name = b.key.split("::")[-1]
+        loops = b.loops()
+        hs = sorted(loops, key=lambda h: -len(loops[h]))
+        chain = []
+        for h in hs:
+            if not chain or loops[h] < loops[chain[-1]]:
+                chain.append(h)
+        msg = None
+        if len(chain) < 3:
+            msg = "expected three nested loops, found nesting depth %d" % len(chain)
+        else:
+            for lvl in (2, 1):
+                inner, parent = loops[chain[lvl]], loops[chain[lvl - 1]]
+                for bb in inner:
+                    for t in b.succ(bb):
+                        if t not in inner and t not in parent and b.blocks[t]["term"]["k"] != "unreachable":
+                            msg = msg or "a way out of loop level %d (bb%d -> bb%d) leaves loop level %d as well: the rest of that level's sub-iterator is skipped" % (lvl + 1, bb, t, lvl)
+        if msg:
+            ctx.violation("NEST2", name, "%s: %s" % (name, msg), detail={"mir": b.pretty()})
+        ctx.instance("NEST2", name, sample={"witness": name, "loops": len(loops)})
+    ctx.floor("NEST2", 5)
+
+
 def validate_nested(ctx, prog, ch, idx, pnames, src_ty, K):
     """chains with one flat_map/flatten: the generated code is an outer loop over the source and an (unlabelled) inner loop
     over the sub-iterator; both iteration relations are compared with the composed schema, state symbol by state symbol"""
@@ -1154,6 +1201,7 @@ def run(ctx):
     ctx.extra["programs"] = len(chains)
     ctx.extra["disagreements_checked"] = len(chains)
     ctx.extra["samples"] = samples or [{"chain": "-"}]
+    nest2(ctx)
     from .. import macrolint
     macrolint.hygiene_rule(ctx, ["iter_eval", "for_each", "iter_collect_const"], facts.REPO)
     ctx.floor("TV", 400)
